@@ -215,6 +215,11 @@ def o_stream(inp):
         if B.shape != (inp['N'], 4):
             return {'tag': f'{entry}/batch-shape', 'observed': list(B.shape), 'expected': [inp['N'], 4]}
         S = _stream(name, arch, hist, kw, B[0], inp.get('npseed', 0))
+        if name == 'AngularRate':
+            # the constructor hands its rows to QuaternionArray(Q), which divides every row by its norm once more (a 1-ulp effect
+            # on rows that are already unit); the recursion itself runs on the un-wrapped rows.  Same wrapper on the streamed rows.
+            import ahrs
+            S = np.asarray(ahrs.QuaternionArray(S), dtype=float)
         if _same(B, S):
             return None
         t = int(np.argmax([not _same(B[i], S[i]) for i in range(len(B))]))
@@ -251,6 +256,14 @@ def o_repeat(inp):
         S2 = _stream(name, arch, hist, kw, B1[0], seed)
         if not _same(S1, S2):
             return {'tag': f'{entry}/stream-not-repeatable', 'observed': float(np.nanmax(np.abs(S1 - S2))), 'expected': 0.0}
+        carried = next(c for n, _, _, c in FILTERS if n == name)
+        if not carried or (name == 'AQUA' and not kw.get('adaptive')):
+            # no declared carried state: a second pass through the SAME instance must reproduce the first one
+            obj = getattr(_F(), name)(**{k: v for k, v in copy.deepcopy(kw).items() if k != 'q0'})
+            Sa = _stream(name, arch, hist, kw, B1[0], seed, obj=obj)
+            Sb = _stream(name, arch, hist, kw, B1[0], seed, obj=obj)
+            if not (_same(Sa, S1) and _same(Sb, S1)):
+                return {'tag': f'{entry}/hidden-state-across-calls', 'observed': float(np.nanmax(np.abs(Sb - S1))), 'expected': 0.0}
         return None
     return _guard(body, entry)
 
@@ -404,7 +417,7 @@ def correspondence(ctx):
         for u in ups:
             label = f'C06_footprint/{name}.{u}'
             st = foot[(name, u)]
-            for variant in range(ctx.n(3, 8)):
+            for variant in range(ctx.n(6, 24)):
                 gyr, acc, mag = history(hseed + variant, 5, ('generic', 'zerogam', 'fast')[variant % 3])
                 kwv = OPTIONS.get(name, [{}])
                 kw = _kw({'kw': kwv[variant % len(kwv)]})
@@ -544,23 +557,27 @@ def _same_any(a, b):
 NS = [2, 3, 4, 5, 7, 12, 40]
 
 
-def _kinds(name):
+# int64 sensor arrays are rejected (UFuncTypeError in an in-place float division) by ecompass/am2q (initial row of the MARG
+# constructors of Madgwick and Mahony), by EKF.update and by Fourati: that is an input-dtype matter outside this property, and the
+# batch run then has no initial attitude to stream from.  int64 histories are fed where the constructor accepts them.
+INT64_OK = {('Madgwick', 'IMU'), ('Mahony', 'IMU'), ('UKF', 'IMU'), ('AQUA', 'IMU'), ('AQUA', 'MARG'), ('ROLEQ', 'MARG'), ('AngularRate', 'GYR')}
+
+
+def _kinds(name, arch):
     z = ZERO_OK.get(name, 'g')
-    return ['generic', 'fast', 'int', 'int64', 'zero' + z, 'zerog']
+    return ['generic', 'fast', 'int', 'int64' if (name, arch) in INT64_OK else 'int', 'zero' + z, 'zerog']
 
 
 def search(ctx, scale):
     rng = ctx.rng
     cfgs = list(ARCHS)
-    per = 3 * scale
+    per = 6 * scale
     k = 0
     for (name, arch) in cfgs:
         for oi, kw in enumerate(OPTIONS[name]):
             for j in range(per):
                 N = NS[(k + j) % len(NS)]
-                kind = _kinds(name)[(k + 2 * j + oi) % len(_kinds(name))]
-                if name in ('UKF', 'Fourati') and kind.startswith('int'):
-                    kind = 'generic'
+                kind = _kinds(name, arch)[(k + 2 * j + oi) % 6]
                 inp = {'filter': name, 'arch': arch, 'kw': kw, 'hseed': int(rng.integers(1 << 30)), 'N': N, 'kind': kind,
                        'npseed': int(rng.integers(1 << 16))}
                 nt = (name, arch, oi, N, kind) if N >= 3 else None
@@ -571,7 +588,7 @@ def search(ctx, scale):
             ctx.check('repeat', inp, o_repeat(inp), nontrivial_key=('rep', name, arch, oi))
     # interleavings: same class twice (shared defaults / class attributes), and different classes
     pairs = [(c, c) for c in cfgs] + [(cfgs[i], cfgs[(3 * i + 5) % len(cfgs)]) for i in range(len(cfgs))]
-    for rep in range(scale):
+    for rep in range(3 * scale):
         for (a, b) in pairs:
             def spec(c, j):
                 o = OPTIONS[c[0]]
@@ -580,9 +597,12 @@ def search(ctx, scale):
             inp = {'A': spec(a, 0), 'B': spec(b, 1), 'iseed': int(rng.integers(1 << 30))}
             ctx.check('interleave', inp, o_interleave(inp), nontrivial_key=('il', a, b, rep))
     for name in ('OLEQ', 'FLAE'):
-        for j in range(4 * scale):
+        for j in range(8 * scale):
             kw = [{}, {'weights': [0.7, 1.9]} if name == 'OLEQ' else {'method': 'newton'}, {'frame': 'ENU'} if name == 'OLEQ' else {'method': 'eig'},
                   {'magnetic_ref': 60.0} if name == 'OLEQ' else {'magnetic_dip': 60.0}][j % 4]
             inp = {'filter': name, 'kw': kw, 'hseed': int(rng.integers(1 << 30)), 'N': NS[j % 5 + 1], 'npseed': int(rng.integers(1 << 16))}
             ctx.check('single_frame', inp, o_single_frame(inp), nontrivial_key=('sf', name, j))
+        for w in ([0.1, 0.3], [2.0, 2.0], [0.1, 2.2]):     # two instances built from one caller-owned weights array
+            inp = {'filter': name, 'kw': {}, 'hseed': int(rng.integers(1 << 30)), 'N': 4, 'npseed': 1, 'shared_weights': w}
+            ctx.check('single_frame', inp, o_single_frame(inp), nontrivial_key=('sfw', name, tuple(w)))
     ctx.samples.append({'kind': 'search', 'oracle': 'stream', 'input': {'filter': 'EKF', 'arch': 'MARG', 'kw': {'frame': 'ENU'}, 'hseed': 1, 'N': 7}})
